@@ -39,7 +39,7 @@ THR = st.one_of(
 	st.floats(0, 1).map(lambda v: {'kind': 'val', 'v': v}),
 	st.builds(lambda i, k: {'kind': k, 'i': i}, st.integers(0, 30),
 	          st.sampled_from(['dist', 'dist', 'dist_up', 'dist_down', 'dist_up32', 'dist_down32'])),
-	st.sampled_from([0.0, 1.0, 0.5]).map(lambda v: {'kind': 'val', 'v': v}),
+	st.sampled_from([0.0, 1.0, 0.5, -0.25, 1.5, 1e-300, 2.0 ** -149]).map(lambda v: {'kind': 'val', 'v': v}),
 )
 
 
